@@ -1,5 +1,5 @@
 /-
-  Model of pgdump/csv.go (after fixes/export 02 and 07): ToCSV for DumpResult / DatabaseDump / TableDump, formatCSVValue.
+  Model of pgdump/csv.go (after fixes/export 02, 07, 12 and 13): ToCSV for DumpResult / DatabaseDump / TableDump, formatCSVValue.
 
   Library behaviour:
     * `encoding/csv.Writer` (Comma = ',', UseCRLF = false) by its source/documented rule: a field is written in quotes iff it
@@ -10,8 +10,8 @@
     * `encoding/json.Marshal` of []interface{} / map[string]interface{} (cells holding arrays and objects): `goJson` —
       compact, map keys sorted, strings escaped as encoding/json does (`\"` `\\` `\b` `\f` `\n` `\r` `\t`, other bytes < 0x20
       and `<` `>` `&` as backslash-u00XX, U+2028/U+2029 as backslash-u2028/2029, each invalid UTF-8 byte as backslash-ufffd), integers in decimal,
-      floats = parameter `F.j64/j32` (`none` = UnsupportedValueError: the whole Marshal fails and, the error being
-      ignored by csv.go, the cell is empty).
+      floats = parameter `F.j64/j32` (`none` = UnsupportedValueError: the whole Marshal fails; csv.go's jsonCell
+      (fix 13) then writes the value with sql.go's writeJSONValue, which has a text for every value).
     * `fmt` `%d`, `%v`: as in Model/ExportSql.lean.
 -/
 import PgVerif.Model.ExportSql
@@ -121,7 +121,10 @@ end
 
 /-! ### csv.go -/
 
-/-- formatCSVValue -/
+/-- jsonCell (fix 13): json.Marshal, and when it fails the JSON writer of sql.go -/
+def jsonCell (F : FloatFmt) (v : GoVal) : Bytes := (goJson F v).getD (writeJSONValue F v)
+
+/-- formatCSVValue (`GoVal.nil` = every value `isNullValue` accepts, fix 12) -/
 def formatCSVValue (F : FloatFmt) : GoVal → Bytes
   | .nil => []
   | .bool b => if b then asc "true" else asc "false"
@@ -129,8 +132,8 @@ def formatCSVValue (F : FloatFmt) : GoVal → Bytes
   | .f64 b => F.v64 b
   | .f32 b => F.v32 b
   | .str s => s
-  | .arr xs => (goJson F (.arr xs)).getD []
-  | .obj kvs => (goJson F (.obj kvs)).getD []
+  | .arr xs => jsonCell F (.arr xs)
+  | .obj kvs => jsonCell F (.obj kvs)
 
 def cellCSV (F : FloatFmt) (row : Row) (col : ColumnInfo) : Bytes :=
   match row.get col.name with
